@@ -5,6 +5,7 @@ decoded by the real code and TLC (WireTrace) decides whether what the code did
 is what the specification allows (code -> spec)."""
 from __future__ import annotations
 
+import contextlib
 import json
 import os
 import random
@@ -79,10 +80,12 @@ def gen_random_subs(rng: random.Random, n: int, table) -> List[Dict[str, Any]]:
         ver = (rng.randrange(256), rng.randrange(256))
         row = {"id": i + 1, "fl": fl, "ver": list(ver), "app": app, "instrs": instrs}
         try:
-            b = bytes(Subroutine(instructions=real, app_id=app, netqasm_version=ver))
-            row["bytes"] = list(b)
-            flav = keep[fl] if i % 2 == 0 else isa.FLAVOURS[fl]()
-            d = deserialize(b, flavour=flav)
+            # every fifth subroutine is encoded and decoded with the package's logger at DEBUG
+            with (C.package_debug_logging() if i % 5 == 4 else contextlib.nullcontext()):
+                b = bytes(Subroutine(instructions=real, app_id=app, netqasm_version=ver))
+                row["bytes"] = list(b)
+                flav = keep[fl] if i % 2 == 0 else isa.FLAVOURS[fl]()
+                d = deserialize(b, flavour=flav)
             row["dec"] = {"ver": [int(x) for x in d.netqasm_version], "app": d.app_id if isinstance(d.app_id, int) else -1,      # (-1: no app id came back)
                           "instrs": [dict(zip(("mn", "ops"), isa.flatten(x))) for x in d.instructions]}
             row["err"] = ""
